@@ -18,7 +18,8 @@ Inductive sop :=
 | SRaw (bs : list Z) | SGap (n : Z)
 | SRef (k : refkind) (rel : Z) (l : nat) (pre : list Z) (w0 : Z) (post : list Z)
 | SBind (l : nat)
-| SAbs (l : nat) (size addend : Z) (pre post : list Z).     (* embed_label / x86-32 [label]: bytes + a RelToAbs relocation entry *)
+| SAbs (l : nat) (size addend : Z) (pre post : list Z)      (* embed_label / x86-32 [label]: bytes + a RelToAbs relocation entry *)
+| SDelta (l b : nat) (size : Z).                            (* embed_label_delta: label - base, as bytes or as an expression relocation *)
 
 Definition op_of (o : sop) : op :=
   match o with
@@ -26,6 +27,7 @@ Definition op_of (o : sop) : op :=
   | SRef k rel l pre w0 post => ORef k rel l pre w0 post
   | SBind l => OBind l
   | SAbs l size addend pre post => OAbsRef l size addend pre post
+  | SDelta l b size => ODeltaChecked l b size
   end.
 
 Definition top := (nat * sop)%type.                       (* (section, operation) *)
@@ -43,10 +45,13 @@ Definition ghost_of (r : refrec) : ghost :=
 Inductive gitem := GRaw (bs : list Z) | GGap (n : Z) | GRef (g : ghost).
 
 (* the immutable part of a relocation entry *)
-Record rghost := { rg_sec : nat; rg_off : Z; rg_lead : Z; rg_size : Z; rg_trail : Z; rg_label : nat; rg_addend : Z }.
+(* rg_base = None: RelToAbs entry of an absolute reference; Some b: expression entry `label - b` of a label delta *)
+Record rghost := { rg_sec : nat; rg_off : Z; rg_lead : Z; rg_size : Z; rg_trail : Z; rg_label : nat; rg_addend : Z; rg_base : option nat }.
 Definition rghost_of (re : reloc) : rghost :=
   {| rg_sec := rl_sec re; rg_off := rl_off re; rg_lead := rl_lead re; rg_size := rl_size re; rg_trail := rl_trail re;
-     rg_label := rl_label re; rg_addend := rl_addend re |}.
+     rg_label := rl_label re; rg_addend := rl_addend re;
+     rg_base := match rl_type re with RelToAbs => None | Expr _ b => Some b end |}.
+Definition delta_fits (size d : Z) : bool := (size =? 8) || ((- 2 ^ (8 * size - 1) <=? d) && (d <? 2 ^ (8 * size - 1))).
 
 Record lst := { l_len : Z; l_items : list gitem; l_binds : list (nat * Z); l_rels : list rghost }.
 Definition lst0 : lst := {| l_len := 0; l_items := []; l_binds := []; l_rels := [] |}.
@@ -95,7 +100,20 @@ Definition lstep (nl k : nat) (st : lst) (o : sop) : lst :=
       if negb (Nat.ltb l nl) then st else
       if negb (size_ok size) then st else
       lemitr st [GRaw (pre ++ zeros size ++ post)] (zlen pre + size + zlen post)
-             [{| rg_sec := k; rg_off := l_len st; rg_lead := zlen pre; rg_size := size; rg_trail := zlen post; rg_label := l; rg_addend := addend |}]
+             [{| rg_sec := k; rg_off := l_len st; rg_lead := zlen pre; rg_size := size; rg_trail := zlen post; rg_label := l; rg_addend := addend; rg_base := None |}]
+  | SDelta l b size =>
+      (* both labels already bound in THIS section: the difference is written at once (range-checked unless 8 bytes wide);
+         otherwise zero bytes + an expression relocation entry.  [delta_local] is the side condition under which "bound in this
+         section" is the same as the assembler's "both bound in one section" *)
+      if negb (Nat.ltb l nl && Nat.ltb b nl) then st else
+      if negb (size_ok size) then st else
+      match assoc l (l_binds st), assoc b (l_binds st) with
+      | Some lo, Some bo =>
+          if delta_fits size (lo - bo) then lemit st [GRaw (le_split (Z.to_nat size) (wrap (8 * size) (lo - bo)))] size else st
+      | _, _ =>
+          lemitr st [GRaw (zeros size)] size
+                 [{| rg_sec := k; rg_off := l_len st; rg_lead := 0; rg_size := size; rg_trail := 0; rg_label := l; rg_addend := 0; rg_base := Some b |}]
+      end
   end.
 
 Definition lfold (nl k : nat) (os : list sop) : lst := fold_left (lstep nl k) os lst0.
@@ -133,6 +151,9 @@ Definition allghosts (nl ns : nat) (t : list top) : list ghost :=
 Definition allrels (nl ns : nat) (t : list top) : list rghost :=
   flat_map (fun k => l_rels (lfold nl k (proj k t))) (seq 0 (S ns)).
 Definition is_abs (re : reloc) : Prop := rl_type re = RelToAbs.
+(* an expression entry is created complete and never touched again *)
+Definition rel_wt (re : reloc) : Prop :=
+  forall l b, rl_type re = Expr l b -> rl_payload re = 0 /\ rl_target re = None /\ rl_label re = l.
 
 Lemma grefs_app : forall a b, grefs (a ++ b) = grefs a ++ grefs b.
 Proof. intros. unfold grefs. apply flat_map_app. Qed.
@@ -164,7 +185,7 @@ Record J (nl ns : nat) (t : list top) (s : state) : Prop := {
   j_sec : forall id r, nth_error (refs s) id = Some r ->
             (r_sec r < S ns)%nat /\ In (GRef (ghost_of r)) (l_items (lfold nl (r_sec r) (proj (r_sec r) t)));
   j_perm : Permutation (map ghost_of (refs s)) (allghosts nl ns t);      (* references <-> reference items, one to one *)
-  j_rel : Permutation (map rghost_of (relocs s)) (allrels nl ns t) /\ Forall is_abs (relocs s)   (* relocation entries <-> SAbs operations *)
+  j_rel : Permutation (map rghost_of (relocs s)) (allrels nl ns t) /\ Forall rel_wt (relocs s)   (* relocation entries <-> SAbs / SDelta operations *)
 }.
 
 (* ------------------------------------------------------------------ small facts *)
@@ -268,7 +289,7 @@ Lemma J_emitr : forall nl ns t s k o its n extra rextra s2, J nl ns t s -> (k < 
   Forall (item_ok (refs s ++ extra)) its ->
   lstep nl k (lfold nl k (proj k t)) o = lemitr (lfold nl k (proj k t)) (map (gi (refs s ++ extra)) its) n (map rghost_of rextra) ->
   secs s2 = upd (secs s) k (sec_append (nsec s k) its n) -> labels s2 = labels s -> refs s2 = refs s ++ extra -> cur s2 = k ->
-  Forall is_abs rextra -> relocs s2 = relocs s ++ rextra -> grefs (map (gi (refs s ++ extra)) its) = map ghost_of extra ->
+  Forall rel_wt rextra -> relocs s2 = relocs s ++ rextra -> grefs (map (gi (refs s ++ extra)) its) = map ghost_of extra ->
   J nl ns (t ++ [(k, o)]) s2.
 Proof.
   intros nl ns t s k o its n extra rextra s2 [A B C D E F G H PM NR] Hk HX HO HL S1 S2 S3 S4 S5 S6 HGR.
@@ -336,6 +357,8 @@ Proof.
   - destruct (Nat.ltb l nl); [|left; reflexivity]. destruct (assoc l (l_binds st)) eqn:E; [left; reflexivity|].
     destruct (lprecheck l (l_len st) (l_items st)); [|left; reflexivity]. right. exists l. auto.
   - destruct (negb (Nat.ltb l nl)); [left; reflexivity|]. destruct (negb (size_ok size)); left; reflexivity.
+  - destruct (negb (Nat.ltb l nl && Nat.ltb b nl)); [left; reflexivity|]. destruct (negb (size_ok size)); [left; reflexivity|].
+    destruct (assoc l (l_binds st)); [destruct (assoc b (l_binds st)); [destruct (delta_fits _ _)|]|]; left; reflexivity.
 Qed.
 
 Lemma assoc_lfold_bind : forall nl k os l off, assoc l (l_binds (lfold nl k os)) = Some off -> In (SBind l) os.
@@ -371,6 +394,9 @@ Proof.
     destruct (lprecheck l (l_len (lfold nl k os)) (l_items (lfold nl k os))); auto.
   - destruct (negb (Nat.ltb l nl)); [auto|]. destruct (negb (size_ok size)); [auto|].
     cbn in H. apply in_app_or in H. destruct H as [H|[H|[]]]; [auto|discriminate].
+  - destruct (negb (Nat.ltb l nl && Nat.ltb b nl)); [auto|]. destruct (negb (size_ok size)); [auto|].
+    destruct (assoc l (l_binds (lfold nl k os))); [destruct (assoc b (l_binds (lfold nl k os))); [destruct (delta_fits _ _); [|auto]|]|];
+      cbn in H; apply in_app_or in H; destruct H as [H|[H|[]]]; auto; discriminate.
 Qed.
 
 (* the machine's bind precheck (over the pending fixups) = the section's own precheck (over its reference items) *)
@@ -408,16 +434,57 @@ Proof.
     rewrite <- Hkind, <- Hsite, <- Hrel, Hw0 in BP. exact BP.
 Qed.
 
-Lemma J_step : forall nl ns t s k o, J nl ns t s -> inv s -> (k < S ns)%nat -> NoDup (bound_labels (t ++ [(k, o)])) ->
+(* the labels of a delta are not both bound in one section other than the one the delta is embedded in (at the time of the call) *)
+Definition delta_local_at (s : state) (k : nat) (o : sop) : Prop :=
+  match o with
+  | SDelta l b _ => forall ks lo bo, nth_error (labels s) l = Some (Some (ks, lo)) -> nth_error (labels s) b = Some (Some (ks, bo)) -> ks = k
+  | _ => True
+  end.
+
+Lemma assoc_state : forall nl ns t s k l, J nl ns t s -> (k < S ns)%nat ->
+  assoc l (l_binds (lfold nl k (proj k t))) =
+  match nth_error (labels s) l with Some (Some (ks, off)) => if Nat.eqb ks k then Some off else None | _ => None end.
+Proof.
+  intros nl ns t s k l HJ Hk. pose proof (j_bound _ _ _ _ HJ) as G.
+  destruct (assoc l (l_binds (lfold nl k (proj k t)))) as [off|] eqn:EA.
+  - assert (X : nth_error (labels s) l = Some (Some (k, off))) by (apply G; auto). rewrite X, Nat.eqb_refl. reflexivity.
+  - destruct (nth_error (labels s) l) as [[[ks off]|]|] eqn:EL; try reflexivity.
+    destruct (Nat.eqb ks k) eqn:EK; [|reflexivity]. apply Nat.eqb_eq in EK. subst ks. apply G in EL. destruct EL as [_ EL]. congruence.
+Qed.
+
+(* the decision of embed_label_delta (difference at once / relocation entry), seen from the section *)
+Lemma delta_decision : forall nl ns t s k l b sz ll lb, J nl ns t s -> (k < S ns)%nat -> delta_local_at s k (SDelta l b sz) ->
+  nth_error (labels s) l = Some ll -> nth_error (labels s) b = Some lb ->
+  match ll, lb with
+  | Some (ls, lo), Some (bs, bo) => if Nat.eqb ls bs then Some (lo - bo) else None
+  | _, _ => None
+  end =
+  match assoc l (l_binds (lfold nl k (proj k t))), assoc b (l_binds (lfold nl k (proj k t))) with
+  | Some lo, Some bo => Some (lo - bo)
+  | _, _ => None
+  end.
+Proof.
+  intros nl ns t s k l b sz ll lb HJ Hk DL EL EB.
+  rewrite (assoc_state nl ns t s k l HJ Hk), (assoc_state nl ns t s k b HJ Hk), EL, EB.
+  destruct ll as [[ls lo]|], lb as [[bs bo]|]; try reflexivity.
+  - destruct (Nat.eqb ls bs) eqn:E1.
+    + apply Nat.eqb_eq in E1. subst bs. cbn in DL. rewrite EL, EB in DL. rewrite (DL ls lo bo eq_refl eq_refl), Nat.eqb_refl. reflexivity.
+    + destruct (Nat.eqb ls k) eqn:E2, (Nat.eqb bs k) eqn:E3; try reflexivity.
+      apply Nat.eqb_eq in E2. apply Nat.eqb_eq in E3. apply Nat.eqb_neq in E1. congruence.
+  - destruct (Nat.eqb ls k); reflexivity.
+Qed.
+
+Lemma J_step : forall nl ns t s k o, J nl ns t s -> inv s -> absinv s -> (k < S ns)%nat -> NoDup (bound_labels (t ++ [(k, o)])) ->
+  delta_local_at s k o ->
   J nl ns (t ++ [(k, o)]) (run s (expand1 (k, o))).
 Proof.
-  intros nl ns t s k o HJ HI Hk HN. pose proof HJ as [A B C D E F G H PM NR].
+  intros nl ns t s k o HJ HI HAI Hk HN DL. pose proof HJ as [A B C D E F G H PM NR].
   unfold expand1. cbn [fst snd run]. rewrite step_section_ok by lia. cbn [fst].
   set (s1 := set_cur s k).
   assert (CS : cur_sec s1 = nsec s k) by reflexivity.
   assert (LL : forall l, (l < nl)%nat <-> nth_error (labels s) l <> None).
   { intros l. rewrite nth_error_Some. lia. }
-  destruct o as [bs|n|kd rel l pre w0 post|l|l size addend pre post]; cbn [op_of].
+  destruct o as [bs|n|kd rel l pre w0 post|l|l size addend pre post|l b size]; cbn [op_of].
   - (* raw *) cbn [step fst]. eapply (J_emit nl ns t s k (SRaw bs) [IRaw bs] (zlen bs) []); try exact HJ; try exact Hk; try reflexivity.
     + intros r [].
     + repeat constructor.
@@ -549,14 +616,22 @@ Proof.
       * destruct NR as [NR1 NR2]. destruct Q5 as [_ Q5]. rewrite Q5.
         assert (RL : rl = mapi_from (fun rid re => if rel_hit l (pending_rel s1) rid then bump_reloc re (cur s1) (s_len (cur_sec s1)) else re) O (relocs s)).
         { unfold bind_rel in EB. injection EB as _ <- _. reflexivity. }
-        assert (MG : forall (f : nat -> reloc -> reloc) i (rls : list reloc), (forall j re, rghost_of (f j re) = rghost_of re /\ (is_abs re -> is_abs (f j re))) ->
-                  map rghost_of (mapi_from f i rls) = map rghost_of rls /\ (Forall is_abs rls -> Forall is_abs (mapi_from f i rls))).
-        { intros f i rls Hf. revert i. induction rls as [|re rls IH]; intros i; cbn; [split; [reflexivity|constructor]|].
-          destruct (IH (S i)) as [I1 I2]. destruct (Hf i re) as [F1 F2]. split; [now rewrite F1, I1|].
-          intros HA. inversion HA; subst. constructor; auto. }
-        destruct (MG (fun rid re => if rel_hit l (pending_rel s1) rid then bump_reloc re (cur s1) (s_len (cur_sec s1)) else re) O (relocs s)) as [M1 M2].
-        { intros j re. destruct (rel_hit l (pending_rel s1) j); split; auto. }
-        rewrite RL. split; [|apply M2; exact NR2]. rewrite M1.
+        assert (MG : forall (f : nat -> reloc -> reloc) i (rls : list reloc), (forall j re, rghost_of (f j re) = rghost_of re) ->
+                  map rghost_of (mapi_from f i rls) = map rghost_of rls).
+        { intros f i rls Hf. revert i. induction rls as [|re rls IH]; intros i; cbn; [reflexivity|]. now rewrite Hf, IH. }
+        assert (M1 := MG (fun rid re => if rel_hit l (pending_rel s1) rid then bump_reloc re (cur s1) (s_len (cur_sec s1)) else re) O (relocs s)
+                         (fun j re => match rel_hit l (pending_rel s1) j as h return rghost_of (if h then bump_reloc re (cur s1) (s_len (cur_sec s1)) else re) = rghost_of re
+                                      with true => eq_refl | false => eq_refl end)).
+        assert (M2 : Forall rel_wt (mapi_from (fun rid re => if rel_hit l (pending_rel s1) rid then bump_reloc re (cur s1) (s_len (cur_sec s1)) else re) O (relocs s))).
+        { apply Forall_forall. intros re' Hin. destruct (In_nth_error _ _ Hin) as (rid & Hrid).
+          rewrite nth_error_mapi_from in Hrid. cbn [Nat.add] in Hrid. destruct (nth_error (relocs s) rid) as [re|] eqn:Er; [|discriminate].
+          cbn [option_map] in Hrid. injection Hrid as <-. cbv beta.
+          match goal with |- context [rel_hit ?a ?b ?c] => destruct (rel_hit a b c) eqn:EHit end.
+          - apply rel_hit_true in EHit. destruct (ai_linked _ _ _ HAI _ EHit) as (re0 & Hre0 & HT & _). cbn [snd] in Hre0.
+            change (relocs s1) with (relocs s) in *. rewrite Er in Hre0. injection Hre0 as <-.
+            intros l' b' HT'. cbn in HT'. congruence.
+          - eapply Forall_forall; [exact NR2|]. eapply nth_error_In. exact Er. }
+        rewrite RL. split; [|exact M2]. rewrite M1.
         unfold allrels. rewrite (flat_map_seq_ext _ (fun j => l_rels (lfold nl j (proj j t)))); [exact NR1|].
         intros j _. destruct (Nat.eq_dec j k) as [->|N]; [rewrite Pk; reflexivity|now rewrite P by exact N].
     + (* invalid label *) cbn [fst]. eapply J_nop; try exact HJ; try exact Hk; try reflexivity. cbn [lstep].
@@ -569,7 +644,7 @@ Proof.
     destruct (negb (size_ok size)) eqn:ESZ.
     { cbn [fst]. eapply J_nop; try exact HJ; try exact Hk; try reflexivity. cbn [lstep]. rewrite LT, ESZ. reflexivity. }
     assert (ABS : forall re s2, rghost_of re = {| rg_sec := k; rg_off := l_len (lfold nl k (proj k t)); rg_lead := zlen pre; rg_size := size;
-                                                 rg_trail := zlen post; rg_label := l; rg_addend := addend |} -> is_abs re ->
+                                                 rg_trail := zlen post; rg_label := l; rg_addend := addend; rg_base := None |} -> is_abs re ->
                secs s2 = upd (secs s) k (sec_append (nsec s k) [IRaw (pre ++ zeros size ++ post)] (zlen pre + size + zlen post)) ->
                labels s2 = labels s -> refs s2 = refs s -> cur s2 = k -> relocs s2 = relocs s ++ [re] ->
                J nl ns (t ++ [(k, SAbs l size addend pre post)]) s2).
@@ -580,10 +655,43 @@ Proof.
       - cbn [lstep]. rewrite LT, ESZ. cbn [negb map gi]. rewrite HG. reflexivity.
       - exact S1.
       - rewrite app_nil_r. exact S3.
-      - repeat constructor. exact HA.
+      - constructor; [|constructor]. intros l' b' HT'. unfold is_abs in HA. congruence.
       - reflexivity. }
     assert (OFF : s_len (cur_sec s1) = l_len (lfold nl k (proj k t))) by (rewrite CS; apply D; exact Hk).
-    destruct lb as [[ls lo]|]; cbn [fst]; eapply ABS; try reflexivity; unfold rghost_of; cbn [rl_sec rl_off rl_lead rl_size rl_trail rl_label rl_addend]; rewrite OFF; reflexivity.
+    destruct lb as [[ls lo]|]; cbn [fst]; eapply ABS; try reflexivity; unfold rghost_of; cbn [rl_sec rl_off rl_lead rl_size rl_trail rl_label rl_addend rl_type]; rewrite OFF; reflexivity.
+  - (* label delta *) cbn [step]. change (labels s1) with (labels s).
+    destruct (nth_error (labels s) l) as [ll|] eqn:EL.
+    2:{ cbn [fst]. eapply J_nop; try exact HJ; try exact Hk; try reflexivity. cbn [lstep].
+        assert (Nat.ltb l nl = false) as ->; [|reflexivity]. apply Nat.ltb_ge. apply nth_error_None in EL. lia. }
+    destruct (nth_error (labels s) b) as [lb|] eqn:EB.
+    2:{ cbn [fst]. eapply J_nop; try exact HJ; try exact Hk; try reflexivity. cbn [lstep].
+        assert (Nat.ltb b nl = false) as ->; [|now rewrite andb_false_r]. apply Nat.ltb_ge. apply nth_error_None in EB. lia. }
+    assert (LT : Nat.ltb l nl = true). { apply Nat.ltb_lt. apply LL. congruence. }
+    assert (LTb : Nat.ltb b nl = true). { apply Nat.ltb_lt. apply LL. congruence. }
+    destruct (negb (size_ok size)) eqn:ESZ.
+    { cbn [fst]. eapply J_nop; try exact HJ; try exact Hk; try reflexivity. cbn [lstep]. rewrite LT, LTb, ESZ. reflexivity. }
+    assert (OFF : s_len (cur_sec s1) = l_len (lfold nl k (proj k t))) by (rewrite CS; apply D; exact Hk).
+    rewrite (delta_decision nl ns t s k l b size ll lb HJ Hk DL EL EB).
+    destruct (assoc l (l_binds (lfold nl k (proj k t)))) as [lo|] eqn:AL; [destruct (assoc b (l_binds (lfold nl k (proj k t)))) as [bo|] eqn:AB|].
+    + fold (delta_fits size (lo - bo)). destruct (delta_fits size (lo - bo)) eqn:EF; cbn [fst].
+      * eapply (J_emit nl ns t s k _ [IRaw (le_split (Z.to_nat size) (wrap (8 * size) (lo - bo)))] size []); try exact HJ; try exact Hk; try reflexivity.
+        -- intros r [].
+        -- repeat constructor.
+        -- cbn [lstep]. rewrite LT, LTb, ESZ, AL, AB, EF. reflexivity.
+        -- cbn. now rewrite app_nil_r.
+      * eapply J_nop; try exact HJ; try exact Hk; try reflexivity. cbn [lstep]. rewrite LT, LTb, ESZ, AL, AB, EF. reflexivity.
+    + cbn [fst]. eapply (J_emitr nl ns t s k _ [IRaw (zeros size)] size [] [_]); try exact HJ; try exact Hk; try reflexivity.
+      * intros r [].
+      * repeat constructor.
+      * cbn [lstep]. rewrite LT, LTb, ESZ, AL, AB. cbn [negb andb map gi rghost_of rl_sec rl_off rl_lead rl_size rl_trail rl_label rl_addend rl_type]. rewrite OFF. reflexivity.
+      * cbn. now rewrite app_nil_r.
+      * constructor; [|constructor]. intros l' b' HT'. cbn in HT'. injection HT' as <- <-. cbn. auto.
+    + cbn [fst]. eapply (J_emitr nl ns t s k _ [IRaw (zeros size)] size [] [_]); try exact HJ; try exact Hk; try reflexivity.
+      * intros r [].
+      * repeat constructor.
+      * cbn [lstep]. rewrite LT, LTb, ESZ, AL. cbn [negb andb map gi rghost_of rl_sec rl_off rl_lead rl_size rl_trail rl_label rl_addend rl_type]. rewrite OFF. reflexivity.
+      * cbn. now rewrite app_nil_r.
+      * constructor; [|constructor]. intros l' b' HT'. cbn in HT'. injection HT' as <- <-. cbn. auto.
 Qed.
 
 (* ------------------------------------------------------------------ the prelude and whole runs *)
@@ -639,16 +747,33 @@ Proof.
   - specialize (H k Hk). rewrite proj_snoc in H. cbn [fst snd] in H. rewrite Nat.eqb_refl, fits_from_snoc in H. apply andb_prop in H. tauto.
 Qed.
 
-Lemma J_run : forall nl ns t, tags_ok ns t -> NoDup (bound_labels t) ->
+(* SIDE CONDITION for label deltas: when a delta is embedded, its two labels are not both bound in one section OTHER than the one the
+   delta goes to.  (Both in the delta's own section: the difference is written at once in every order.  In two different sections, or one
+   of them unbound: a relocation entry in every order.  Both in one other section: at once or as an entry depending on whether that
+   section's binds come first - the bytes then agree only after relocation; see delta_entry_effect.) *)
+Definition delta_local (nl ns : nat) (t : list top) : Prop :=
+  forall t1 t2 k l b sz, t = t1 ++ (k, SDelta l b sz) :: t2 ->
+  forall k' lo bo, (k' < S ns)%nat ->
+    assoc l (l_binds (lfold nl k' (proj k' t1))) = Some lo -> assoc b (l_binds (lfold nl k' (proj k' t1))) = Some bo -> k' = k.
+
+Lemma delta_local_snoc : forall nl ns t x, delta_local nl ns (t ++ [x]) -> delta_local nl ns t.
+Proof.
+  intros nl ns t x H t1 t2 k l b sz E. apply (H t1 (t2 ++ [x]) k l b sz). rewrite E, <- app_assoc. reflexivity.
+Qed.
+
+Lemma J_run : forall nl ns t, tags_ok ns t -> NoDup (bound_labels t) -> delta_local nl ns t ->
   J nl ns t (run init (prelude nl ns ++ expand t)) /\ inv (run init (prelude nl ns ++ expand t)).
 Proof.
-  intros nl ns t. induction t as [|x t IH] using rev_ind; intros HT HN.
+  intros nl ns t. induction t as [|x t IH] using rev_ind; intros HT HN HD.
   - cbn [expand flat_map]. rewrite app_nil_r. split; [apply J_prelude|apply run_inv, inv_init].
   - apply Forall_app in HT. destruct HT as [HT Hx]. inversion Hx; subst.
     assert (HN' : NoDup (bound_labels t)) by (rewrite bound_labels_snoc in HN; eapply NoDup_app_l'; exact HN).
     destruct x as [k o].
-    destruct (IH HT HN') as [IJ II]. rewrite expand_snoc, app_assoc, run_app. split.
-    + apply J_step; assumption.
+    destruct (IH HT HN' (delta_local_snoc _ _ _ _ HD)) as [IJ II]. rewrite expand_snoc, app_assoc, run_app. split.
+    + apply J_step; try assumption; [apply run_absinv, absinv_init|].
+      destruct o; cbn; auto. intros ks lo bo E1 E2.
+      apply (j_bound _ _ _ _ IJ) in E1. apply (j_bound _ _ _ _ IJ) in E2. destruct E1 as [K1 E1]. destruct E2 as [_ E2].
+      exact (HD t [] k l b size eq_refl ks lo bo K1 E1 E2).
     + apply run_inv. exact II.
 Qed.
 
@@ -772,10 +897,20 @@ Definition unbound (lbls : list (option (nat * Z))) (l : nat) : bool :=
 
 (* the final relocation entry of an absolute reference: payload and target section follow from the final label table *)
 Definition rel_final (lbls : list (option (nat * Z))) (rg : rghost) : reloc :=
+  match rg_base rg with
+  | Some b =>
+  {| rl_type := Expr (rg_label rg) b; rl_sec := rg_sec rg; rl_off := rg_off rg; rl_lead := rg_lead rg; rl_size := rg_size rg; rl_trail := rg_trail rg;
+     rl_payload := 0; rl_target := None; rl_label := rg_label rg; rl_addend := rg_addend rg |}
+  | None =>
   {| rl_type := RelToAbs; rl_sec := rg_sec rg; rl_off := rg_off rg; rl_lead := rg_lead rg; rl_size := rg_size rg; rl_trail := rg_trail rg;
      rl_payload := match nth_error lbls (rg_label rg) with Some (Some (_, lo)) => wrap 64 (rg_addend rg + lo) | _ => wrap 64 (rg_addend rg) end;
      rl_target := match nth_error lbls (rg_label rg) with Some (Some (ls, _)) => Some ls | _ => None end;
-     rl_label := rg_label rg; rl_addend := rg_addend rg |}.
+     rl_label := rg_label rg; rl_addend := rg_addend rg |}
+  end.
+
+(* a relocation entry that still waits for its label: absolute references only (an expression entry is evaluated when relocating) *)
+Definition rel_waits (lbls : list (option (nat * Z))) (rg : rghost) : bool :=
+  match rg_base rg with None => unbound lbls (rg_label rg) | Some _ => false end.
 
 Record final (nl ns : nat) (t : list top) (offs : list Z) (s : state) : Prop := {
   f_nl : length (labels s) = nl;
@@ -783,16 +918,16 @@ Record final (nl ns : nat) (t : list top) (offs : list Z) (s : state) : Prop := 
   f_len : forall k, (k < S ns)%nat -> s_len (nsec s k) = l_len (lfold nl k (proj k t));
   f_img : forall k, (k < S ns)%nat -> sec_image (refs s) (s_items (nsec s k)) = gimage (labels s) offs (l_items (lfold nl k (proj k t)));
   f_unres : unresolved s = Z.of_nat (length (filter (unresolvable (labels s) offs) (allghosts nl ns t)))     (* CodeHolder::unresolved_fixup_count() *)
-                         + Z.of_nat (length (filter (fun rg => unbound (labels s) (rg_label rg)) (allrels nl ns t)));
+                         + Z.of_nat (length (filter (rel_waits (labels s)) (allrels nl ns t)));
   f_rel : Permutation (relocs s) (map (rel_final (labels s)) (allrels nl ns t))      (* the relocation entries, up to creation order *)
 }.
 
 (* the assembled result as a function of the per-section operation sequences *)
-Theorem final_char : forall nl ns t offs, tags_ok ns t -> NoDup (bound_labels t) -> nowrap nl ns t offs ->
+Theorem final_char : forall nl ns t offs, tags_ok ns t -> NoDup (bound_labels t) -> delta_local nl ns t -> nowrap nl ns t offs ->
   final nl ns t offs (run init ((prelude nl ns ++ expand t) ++ [OResolve offs])).
 Proof.
-  intros nl ns t offs HT HN HW.
-  destruct (J_run nl ns t HT HN) as [HJ HI]. pose proof (no_resolve_ops nl ns t) as HNR.
+  intros nl ns t offs HT HN HD HW.
+  destruct (J_run nl ns t HT HN HD) as [HJ HI]. pose proof (no_resolve_ops nl ns t) as HNR.
   set (ops := prelude nl ns ++ expand t) in *. set (sF := run init ops) in *.
   pose proof HJ as [A B C D E F G H PM NR].
   assert (RUN : run init (ops ++ [OResolve offs]) = fst (step sF (OResolve offs))) by (rewrite run_app; reflexivity).
@@ -864,16 +999,17 @@ Proof.
       pose proof (run_absinv ops init absinv_init) as AI. fold sF in AI. destruct AI as [AN AL AA].
       rewrite <- (map_length snd (pending_rel sF)).
       rewrite (count_ids (map snd (pending_rel sF)) (length (relocs sF))
-                 (fun i => match nth_error (relocs sF) i with Some re => unbound (labels sF) (rl_label re) | None => false end)).
-      - rewrite (filter_seq_list (fun re => unbound (labels sF) (rl_label re)) (relocs sF)).
-        rewrite (filter_map_length rghost_of (fun rg => unbound (labels sF) (rg_label rg))). apply perm_filter_length. exact NR1.
+                 (fun i => match nth_error (relocs sF) i with Some re => rel_waits (labels sF) (rghost_of re) | None => false end)).
+      - rewrite (filter_seq_list (fun re => rel_waits (labels sF) (rghost_of re)) (relocs sF)).
+        rewrite (filter_map_length rghost_of (rel_waits (labels sF))). apply perm_filter_length. exact NR1.
       - exact AN.
       - intros rid. split.
         + intros HP. apply in_map_iff in HP. destruct HP as ([l0 rid0] & Hs & Hp). cbn in Hs. subst rid0.
-          destruct (AL _ Hp) as (re & Hre & _ & Hlab & _ & _ & Hun). cbn [fst snd] in *.
-          split; [apply nth_error_Some; congruence|]. rewrite Hre. unfold unbound. rewrite Hlab, Hun. reflexivity.
+          destruct (AL _ Hp) as (re & Hre & Hty & Hlab & _ & _ & Hun). cbn [fst snd] in *.
+          split; [apply nth_error_Some; congruence|]. rewrite Hre. unfold rel_waits, rghost_of, unbound. cbn [rg_base rg_label]. rewrite Hty, Hlab, Hun. reflexivity.
         + intros [Hlt HPt]. destruct (nth_error (relocs sF) rid) as [re|] eqn:Er; [|discriminate].
-          assert (HA : is_abs re) by (eapply Forall_forall; [exact NR2|eapply nth_error_In; exact Er]).
+          unfold rel_waits, rghost_of in HPt. cbn [rg_base rg_label] in HPt.
+          destruct (rl_type re) eqn:HA; [|discriminate].
           destruct (AA rid re Er HA) as [X|(ls & lo & X & _)].
           * apply in_map_iff. exists (rl_label re, rid). split; [reflexivity|exact X].
           * unfold unbound in HPt. rewrite X in HPt. discriminate. }
@@ -896,7 +1032,9 @@ Proof.
     assert (EQ : map (rel_final (labels sF)) (map rghost_of (relocs sF)) = relocs sF).
     { rewrite map_map. rewrite <- (map_id (relocs sF)) at 2. apply map_ext_in. intros re Hin.
       destruct (In_nth_error _ _ Hin) as (rid & Er).
-      assert (HA : is_abs re) by (eapply Forall_forall; [exact NR2|exact Hin]). unfold is_abs in HA.
+      assert (WT : rel_wt re) by (eapply Forall_forall; [exact NR2|exact Hin]).
+      destruct (rl_type re) as [|el eb] eqn:HA.
+      2:{ destruct (WT el eb HA) as (W1 & W2 & W3). destruct re; cbn in *. unfold rel_final, rghost_of. cbn. rewrite HA. cbn. rewrite W1, W2, W3. reflexivity. }
       destruct (AA rid re Er HA) as [X|(ls & lo & X & Y & Z0)].
       - destruct (AL _ X) as (re' & Hre' & _ & _ & Hpay & Htar & Hun). cbn [fst snd] in *. rewrite Er in Hre'. injection Hre' as <-.
         destruct re; cbn in *. unfold rel_final, rghost_of. cbn. rewrite Hun, HA, Hpay, Htar. reflexivity.
@@ -930,7 +1068,8 @@ Qed.
    the same section sizes and, after layout at ANY section offsets and cross-section resolution, the same bytes in every section. *)
 Theorem order_irrelevant : forall nl ns t1 t2 offs,
   (forall k, proj k t1 = proj k t2) ->
-  tags_ok ns t1 -> tags_ok ns t2 -> NoDup (bound_labels t1) -> NoDup (bound_labels t2) -> nowrap nl ns t1 offs ->
+  tags_ok ns t1 -> tags_ok ns t2 -> NoDup (bound_labels t1) -> NoDup (bound_labels t2) ->
+  delta_local nl ns t1 -> delta_local nl ns t2 -> nowrap nl ns t1 offs ->
   let s1 := run init ((prelude nl ns ++ expand t1) ++ [OResolve offs]) in
   let s2 := run init ((prelude nl ns ++ expand t2) ++ [OResolve offs]) in
   labels s1 = labels s2 /\ unresolved s1 = unresolved s2 /\ Permutation (relocs s1) (relocs s2) /\
@@ -938,9 +1077,9 @@ Theorem order_irrelevant : forall nl ns t1 t2 offs,
     s_len (nsec s1 k) = s_len (nsec s2 k) /\
     sec_image (refs s1) (s_items (nsec s1 k)) = sec_image (refs s2) (s_items (nsec s2 k)).
 Proof.
-  intros nl ns t1 t2 offs HP T1 T2 N1 N2 HW s1 s2.
+  intros nl ns t1 t2 offs HP T1 T2 N1 N2 D1 D2 HW s1 s2.
   assert (HW2 : nowrap nl ns t2 offs) by (intros k Hk; rewrite <- HP; apply HW; exact Hk).
-  pose proof (final_char nl ns t1 offs T1 N1 HW) as F1. pose proof (final_char nl ns t2 offs T2 N2 HW2) as F2.
+  pose proof (final_char nl ns t1 offs T1 N1 D1 HW) as F1. pose proof (final_char nl ns t2 offs T2 N2 D2 HW2) as F2.
   fold s1 in F1. fold s2 in F2.
   pose proof (final_labels_eq nl ns t1 t2 offs s1 s2 HP F1 F2) as HL. split; [exact HL|].
   destruct F1 as [_ _ L1 I1 U1 R1]. destruct F2 as [_ _ L2 I2 U2 R2].
@@ -1003,9 +1142,41 @@ Proof.
   apply Permutation_flat_map. eapply same_proj_perm; eassumption.
 Qed.
 
+(* ------------------------------------------------------------------ the side condition for deltas in order-independent form *)
+Lemma proj_app : forall k a b, proj k (a ++ b) = proj k a ++ proj k b.
+Proof. intros. unfold proj. now rewrite filter_app, map_app. Qed.
+
+(* a label bound by a prefix of a section's operations stays bound at the same offset *)
+Lemma binds_mono : forall nl k os os' l off, assoc l (l_binds (lfold nl k os)) = Some off -> assoc l (l_binds (lfold nl k (os ++ os'))) = Some off.
+Proof.
+  intros nl k os os'. induction os' as [|o os' IH] using rev_ind; intros l off H; [now rewrite app_nil_r|].
+  rewrite app_assoc, lfold_snoc. specialize (IH l off H).
+  destruct (l_binds_lstep nl k (lfold nl k (os ++ os')) o) as [E|(l' & _ & EN & E)]; rewrite E; [exact IH|].
+  cbn [assoc]. destruct (Nat.eqb l' l) eqn:EQ; [|exact IH]. apply Nat.eqb_eq in EQ. subst. congruence.
+Qed.
+
+(* in terms of the FINAL label table: no delta takes both its labels from one section other than its own *)
+Definition delta_local_final (nl ns : nat) (t : list top) : Prop :=
+  forall k l b sz, In (k, SDelta l b sz) t -> forall k' lo bo, (k' < S ns)%nat ->
+    assoc l (l_binds (lfold nl k' (proj k' t))) = Some lo -> assoc b (l_binds (lfold nl k' (proj k' t))) = Some bo -> k' = k.
+
+Lemma delta_local_of_final : forall nl ns t, delta_local_final nl ns t -> delta_local nl ns t.
+Proof.
+  intros nl ns t H t1 t2 k l b sz E k' lo bo Hk A1 A2. subst t.
+  assert (HIN : In (k, SDelta l b sz) (t1 ++ (k, SDelta l b sz) :: t2)) by (apply in_or_app; right; now left).
+  apply (H k l b sz HIN k' lo bo Hk); rewrite proj_app; apply binds_mono; assumption.
+Qed.
+
+Lemma delta_local_final_transfers : forall nl ns t1 t2, (forall k, proj k t1 = proj k t2) -> tags_ok ns t1 -> tags_ok ns t2 ->
+  delta_local_final nl ns t1 -> delta_local_final nl ns t2.
+Proof.
+  intros nl ns t1 t2 HP T1 T2 H k l b sz Hin k' lo bo Hk A1 A2. rewrite <- HP in A1, A2.
+  apply (H k l b sz) with (lo := lo) (bo := bo); try assumption. eapply Permutation_in; [apply Permutation_sym; eapply same_proj_perm; eassumption|exact Hin].
+Qed.
+
 (* order irrelevance with the hypotheses stated once *)
 Corollary order_irrelevant' : forall nl ns t1 t2 offs,
-  (forall k, proj k t1 = proj k t2) -> tags_ok ns t1 -> tags_ok ns t2 -> NoDup (bound_labels t1) -> nowrap nl ns t1 offs ->
+  (forall k, proj k t1 = proj k t2) -> tags_ok ns t1 -> tags_ok ns t2 -> NoDup (bound_labels t1) -> delta_local_final nl ns t1 -> nowrap nl ns t1 offs ->
   let s1 := run init ((prelude nl ns ++ expand t1) ++ [OResolve offs]) in
   let s2 := run init ((prelude nl ns ++ expand t2) ++ [OResolve offs]) in
   labels s1 = labels s2 /\ unresolved s1 = unresolved s2 /\ Permutation (relocs s1) (relocs s2) /\
@@ -1013,7 +1184,10 @@ Corollary order_irrelevant' : forall nl ns t1 t2 offs,
     s_len (nsec s1 k) = s_len (nsec s2 k) /\
     sec_image (refs s1) (s_items (nsec s1 k)) = sec_image (refs s2) (s_items (nsec s2 k)).
 Proof.
-  intros nl ns t1 t2 offs HP T1 T2 N1 HW. apply order_irrelevant; try assumption. eapply bound_once_transfers; eassumption.
+  intros nl ns t1 t2 offs HP T1 T2 N1 D1 HW. apply order_irrelevant; try assumption.
+  - eapply bound_once_transfers; eassumption.
+  - apply delta_local_of_final. exact D1.
+  - apply delta_local_of_final. eapply delta_local_final_transfers; eassumption.
 Qed.
 
 (* ------------------------------------------------------------------ the layout + resolution step itself reports no error (whatever the order) *)
@@ -1027,10 +1201,10 @@ Proof.
     destruct (write_offset _ _ _); cbn [walk_keep walk_done w_err] in H; [|cbn in H]; destruct (IH _ H) as (fx & A & B); exists fx; (split; [now right|exact B]).
 Qed.
 
-Theorem resolve_ok : forall nl ns t offs, tags_ok ns t -> NoDup (bound_labels t) -> nowrap nl ns t offs ->
+Theorem resolve_ok : forall nl ns t offs, tags_ok ns t -> NoDup (bound_labels t) -> delta_local nl ns t -> nowrap nl ns t offs ->
   snd (step (run init (prelude nl ns ++ expand t)) (OResolve offs)) = EOk.
 Proof.
-  intros nl ns t offs HT HN HW. destruct (J_run nl ns t HT HN) as [HJ HI].
+  intros nl ns t offs HT HN HD HW. destruct (J_run nl ns t HT HN HD) as [HJ HI].
   set (sF := run init (prelude nl ns ++ expand t)) in *. pose proof HJ as [A B C D E F G H PM NR].
   cbn [step snd]. destruct (w_err (resolve_list (resolve_sel (labels sF) offs) false (pending sF) (refs sF))) eqn:EW; [|reflexivity].
   exfalso. destruct (walk_err_serr _ _ _ EW) as (fx & Hin & X).
@@ -1061,6 +1235,12 @@ Definition lerr (nl k : nat) (st : lst) (o : sop) : err :=
                                     | None => if lprecheck l (l_len st) (l_items st) then EOk else EInvalidDisp
                                     end else EInvalidLabel
   | SAbs l size addend pre post => if negb (Nat.ltb l nl) then EInvalidLabel else if negb (size_ok size) then EInvalidSize else EOk
+  | SDelta l b size =>
+      if negb (Nat.ltb l nl && Nat.ltb b nl) then EInvalidLabel else if negb (size_ok size) then EInvalidSize else
+      match assoc l (l_binds st), assoc b (l_binds st) with
+      | Some lo, Some bo => if delta_fits size (lo - bo) then EOk else EInvalidDisp
+      | _, _ => EOk
+      end
   end.
 
 Lemma precheck_no_err : forall l sec off fxs rs, NoDup (ids fxs) -> (forall fx, In fx fxs -> fx_ok rs fx) ->
@@ -1080,14 +1260,14 @@ Proof.
       destruct (bind_sel l sec off fx0); try exact HT. rewrite nth_error_upd_neq; [exact HT|]. intro EQ. apply H1. rewrite EQ. apply in_map. exact H0.
 Qed.
 
-Lemma E_step : forall nl ns t s k o, J nl ns t s -> inv s -> (k < S ns)%nat -> NoDup (bound_labels (t ++ [(k, o)])) ->
+Lemma E_step : forall nl ns t s k o, J nl ns t s -> inv s -> (k < S ns)%nat -> NoDup (bound_labels (t ++ [(k, o)])) -> delta_local_at s k o ->
   snd (step (set_cur s k) (op_of o)) = lerr nl k (lfold nl k (proj k t)) o.
 Proof.
-  intros nl ns t s k o HJ HI Hk HN. pose proof HJ as [A B C D E F G H PM NR].
+  intros nl ns t s k o HJ HI Hk HN DL. pose proof HJ as [A B C D E F G H PM NR].
   set (s1 := set_cur s k). assert (CS : cur_sec s1 = nsec s k) by reflexivity.
   assert (LL : forall l, nth_error (labels s) l = None <-> Nat.ltb l nl = false).
   { intros l. rewrite nth_error_None, Nat.ltb_ge. lia. }
-  destruct o as [bs|n|kd rel l pre w0 post|l|l size addend pre post]; cbn [op_of step lerr].
+  destruct o as [bs|n|kd rel l pre w0 post|l|l size addend pre post|l b size]; cbn [op_of step lerr].
   - reflexivity.
   - destruct (0 <=? n); reflexivity.
   - change (labels s1) with (labels s). destruct (nth_error (labels s) l) as [lb|] eqn:EL.
@@ -1125,6 +1305,16 @@ Proof.
     2:{ apply LL in EL. rewrite EL. reflexivity. }
     assert (LT : Nat.ltb l nl = true). { destruct (Nat.ltb l nl) eqn:X; [reflexivity|]. apply LL in X. congruence. }
     rewrite LT. cbn [negb]. destruct (negb (size_ok size)); [reflexivity|]. destruct lb as [[? ?]|]; reflexivity.
+  - change (labels s1) with (labels s). destruct (nth_error (labels s) l) as [ll|] eqn:EL.
+    2:{ apply LL in EL. rewrite EL. reflexivity. }
+    destruct (nth_error (labels s) b) as [lb|] eqn:EB.
+    2:{ apply LL in EB. rewrite EB, andb_false_r. reflexivity. }
+    assert (LT : Nat.ltb l nl = true). { destruct (Nat.ltb l nl) eqn:X; [reflexivity|]. apply LL in X. congruence. }
+    assert (LTb : Nat.ltb b nl = true). { destruct (Nat.ltb b nl) eqn:X; [reflexivity|]. apply LL in X. congruence. }
+    rewrite LT, LTb. cbn [negb andb]. destruct (negb (size_ok size)); [reflexivity|].
+    rewrite (delta_decision nl ns t s k l b size ll lb HJ Hk DL EL EB).
+    destruct (assoc l (l_binds (lfold nl k (proj k t)))) as [lo|]; [destruct (assoc b (l_binds (lfold nl k (proj k t)))) as [bo|]|]; try reflexivity.
+    fold (delta_fits size (lo - bo)). destruct (delta_fits size (lo - bo)); reflexivity.
 Qed.
 
 Fixpoint run_errs (s : state) (t : list top) : list err :=
@@ -1156,29 +1346,34 @@ Proof. induction os; intros; cbn; [reflexivity|]. now rewrite IHos. Qed.
 Lemma combine_snoc : forall {A B} (l : list A) (m : list B) x y, length l = length m -> combine (l ++ [x]) (m ++ [y]) = combine l m ++ [(x, y)].
 Proof. induction l; intros [|b m] x y H; cbn in *; try discriminate; [reflexivity|]. f_equal. apply IHl. lia. Qed.
 
-Theorem errors_char : forall nl ns t, tags_ok ns t -> NoDup (bound_labels t) ->
+Theorem errors_char : forall nl ns t, tags_ok ns t -> NoDup (bound_labels t) -> delta_local nl ns t ->
   forall k, err_proj k t (run_errs (run init (prelude nl ns)) t) = lerrs nl k lst0 (proj k t).
 Proof.
-  intros nl ns t. induction t as [|x t IH] using rev_ind; intros HT HN k; [reflexivity|].
+  intros nl ns t. induction t as [|x t IH] using rev_ind; intros HT HN HD k; [reflexivity|].
   apply Forall_app in HT. destruct HT as [HT Hx]. inversion Hx; subst.
   assert (HN' : NoDup (bound_labels t)) by (rewrite bound_labels_snoc in HN; eapply NoDup_app_l'; exact HN).
   destruct x as [kx o]. cbn [fst] in H1.
-  destruct (J_run nl ns t HT HN') as [HJ HI].
+  pose proof (delta_local_snoc _ _ _ _ HD) as HD'.
+  destruct (J_run nl ns t HT HN' HD') as [HJ HI].
   rewrite run_errs_snoc. unfold err_proj. rewrite combine_snoc by (now rewrite run_errs_length).
   rewrite filter_app, map_app. fold (err_proj k t (run_errs (run init (prelude nl ns)) t)). rewrite IH by assumption.
   rewrite proj_snoc. cbn [fst snd filter map]. destruct (Nat.eqb kx k) eqn:EQ.
   - apply Nat.eqb_eq in EQ. subst kx. rewrite lerrs_snoc. f_equal. cbn [map]. f_equal.
     rewrite <- run_app. rewrite step_section_ok by (rewrite (j_secs _ _ _ _ HJ); exact H1). cbn [fst].
-    apply (E_step nl ns t); assumption.
+    apply (E_step nl ns t); try assumption.
+    destruct o; cbn; auto. intros ks lo bo E1 E2.
+    apply (j_bound _ _ _ _ HJ) in E1. apply (j_bound _ _ _ _ HJ) in E2. destruct E1 as [K1 E1]. destruct E2 as [_ E2].
+    exact (HD t [] k l b size eq_refl ks lo bo K1 E1 E2).
   - now rewrite !app_nil_r.
 Qed.
 
 (* ... hence the same in any interleaving *)
 Corollary errors_order_irrelevant : forall nl ns t1 t2, (forall k, proj k t1 = proj k t2) ->
-  tags_ok ns t1 -> tags_ok ns t2 -> NoDup (bound_labels t1) ->
+  tags_ok ns t1 -> tags_ok ns t2 -> NoDup (bound_labels t1) -> delta_local_final nl ns t1 ->
   forall k, err_proj k t1 (run_errs (run init (prelude nl ns)) t1) = err_proj k t2 (run_errs (run init (prelude nl ns)) t2).
 Proof.
-  intros nl ns t1 t2 HP T1 T2 N1 k.
+  intros nl ns t1 t2 HP T1 T2 N1 D1 k.
   assert (N2 : NoDup (bound_labels t2)) by (eapply bound_once_transfers; eassumption).
-  rewrite (errors_char nl ns t1 T1 N1), (errors_char nl ns t2 T2 N2). now rewrite HP.
+  assert (D2 : delta_local_final nl ns t2) by (eapply delta_local_final_transfers; eassumption).
+  rewrite (errors_char nl ns t1 T1 N1 (delta_local_of_final _ _ _ D1)), (errors_char nl ns t2 T2 N2 (delta_local_of_final _ _ _ D2)). now rewrite HP.
 Qed.
